@@ -8,18 +8,18 @@ open Gomjml.Cache
 
 /-- reuse strictly before expiry: the compilation is a hit, nothing in the cache changes (in particular the expiry
     is not extended) and the parser is not called -/
-theorem C14_hit (w : World) (s : CS) (d : Doc) (e : Entry) (hs : s.store (w.hash d) = some e) (hnow : s.now < e.expires) :
-    (step w s (.render d true)).1 = arm s ∧ (step w s (.render d true)).1.parses = s.parses ∧
-    (step w s (.render d true)).1.store (w.hash d) = some e :=
-  ⟨hit_no_change w s d e hs hnow, hit_no_parse w s d e hs hnow, by rw [hit_no_change w s d e hs hnow]; simpa using hs⟩
+theorem C14_hit (w : World) (s : CS) (d : Doc) (o : Opt) (e : Entry) (hs : s.store (w.hash d) = some e) (hnow : s.now < e.expires) :
+    (step w s (.render d true o)).1 = arm s ∧ (step w s (.render d true o)).1.parses = s.parses ∧
+    (step w s (.render d true o)).1.store (w.hash d) = some e :=
+  ⟨hit_no_change w s d o e hs hnow, hit_no_parse w s d o e hs hnow, by rw [hit_no_change w s d o e hs hnow]; simpa using hs⟩
 
 /-- never at or after expiry: the entry is dropped, the document is parsed again (exactly once) and re-cached with a
     fresh stamp -/
-theorem C14_expired (w : World) (s : CS) (d : Doc) (e : Entry) (hs : s.store (w.hash d) = some e) (hnow : e.expires ≤ s.now)
+theorem C14_expired (w : World) (s : CS) (d : Doc) (o : Opt) (e : Entry) (hs : s.store (w.hash d) = some e) (hnow : e.expires ≤ s.now)
     (a : Ast) (hp : w.parse d = .ok a) :
-    (step w s (.render d true)).1.store (w.hash d) = some ⟨a, s.now + s.ttl, s.now, s.ttl⟩ ∧
-    (step w s (.render d true)).1.parses = s.parses + 1 :=
-  ⟨expired_reparsed w s d e hs hnow a hp, miss_one_parse w s d (Or.inr ⟨e, hs, hnow⟩)⟩
+    (step w s (.render d true o)).1.store (w.hash d) = some ⟨a, s.now + s.ttl, s.now, s.ttl⟩ ∧
+    (step w s (.render d true o)).1.parses = s.parses + 1 :=
+  ⟨expired_reparsed w s d o e hs hnow a hp, miss_one_parse w s d o (Or.inr ⟨e, hs, hnow⟩)⟩
 
 /-- fixed TTL: in every reachable state every entry expires exactly `ttl-at-store-time` after it was stored -/
 theorem C14_fixed_ttl (w : World) (ttl : Int) (ops : List Op) (k : CKey) (e : Entry)
@@ -49,11 +49,11 @@ theorem C14_ttl_then_interval (w : World) (ttl d i : Int) :
     (step w (step w (init ttl) (.setTTL d)).1 (.setInterval i)).1.interval = i := ttl_then_interval w ttl d i
 
 /-- non-vacuity for the hit / expired hypotheses -/
-def wEx : World := { parse := fun d => .ok (d + 10), rend := fun a => a, hash := fun d => d }
+def wEx : World := { parse := fun d => .ok (d + 10), rend := fun a _ => a, hash := fun d => d }
 example : ∃ (s : CS) (e : Entry), s.store 0 = some e ∧ s.now < e.expires :=
-  ⟨(runOps wEx (init 100) [.render 0 true]).1, ⟨10, 100, 0, 100⟩, by decide, by decide⟩
+  ⟨(runOps wEx (init 100) [.render 0 true 0]).1, ⟨10, 100, 0, 100⟩, by decide, by decide⟩
 example : ∃ (s : CS) (e : Entry), s.store 0 = some e ∧ e.expires ≤ s.now :=
-  ⟨(runOps wEx (init 100) [.render 0 true, .advance 100]).1, ⟨10, 100, 0, 100⟩, by decide, by decide⟩
+  ⟨(runOps wEx (init 100) [.render 0 true 0, .advance 100]).1, ⟨10, 100, 0, 100⟩, by decide, by decide⟩
 
 /-- Regenerated fact: the only comparisons between times on the cache path are the strict `Before` on lookup and the
     strict `After` in the sweep. -/
